@@ -2,9 +2,14 @@ package main
 
 import (
 	"fmt"
+	"os"
 	"reflect"
+	"sort"
+	"strconv"
 	"strings"
 	"time"
+
+	"github.com/Flowpack/prunner/zverif/vsched"
 )
 
 // x1Scenarios returns the X1 scenarios of a property (deterministic order)
@@ -12,21 +17,47 @@ func x1Scenarios(prop, tier string) []*Scenario {
 	switch prop {
 	case "C04":
 		return c04Scenarios(tier)
+	case "C02":
+		return c02Scenarios(tier)
+	case "C08":
+		return c08Scenarios(tier)
+	case "C13":
+		return c13Scenarios(tier)
 	}
 	return nil
 }
 
 func x1Bound(prop, tier string) int {
+	if b := os.Getenv("VERIF_BOUND"); b != "" {
+		n, _ := strconv.Atoi(b)
+		return n
+	}
+	if prop == "C13" {
+		// the race build executes ~10x slower
+		if tier == "thorough" {
+			return 2
+		}
+		return 1
+	}
 	if tier == "thorough" {
 		return 3
 	}
 	return 2
 }
 
+const chunkCount = 32
+
 func unitsFor(prop, tier string) []Unit {
 	var us []Unit
-	for i, sc := range x1Scenarios(prop, tier) {
-		us = append(us, Unit{Prop: prop, Tier: tier, Kind: "x1", Index: i, Name: "x1/" + sc.Name})
+	scs := x1Scenarios(prop, tier)
+	if len(scs) > 2*chunkCount {
+		for i := 0; i < chunkCount; i++ {
+			us = append(us, Unit{Prop: prop, Tier: tier, Kind: "x1chunk", Index: i, Name: fmt.Sprintf("x1chunk/%d-of-%d(%d scenarios)", i, chunkCount, len(scs))})
+		}
+	} else {
+		for i, sc := range scs {
+			us = append(us, Unit{Prop: prop, Tier: tier, Kind: "x1", Index: i, Name: "x1/" + sc.Name})
+		}
 	}
 	for i, c := range x2Configs(prop, tier) {
 		us = append(us, Unit{Prop: prop, Tier: tier, Kind: "x2", Index: i, Name: "x2/" + c.Name})
@@ -38,7 +69,7 @@ func unitDeadline(tier string) time.Duration {
 	if tier == "thorough" {
 		return 12 * time.Minute
 	}
-	return 75 * time.Second
+	return 45 * time.Second
 }
 
 func runUnit(u Unit) UnitResult {
@@ -46,7 +77,45 @@ func runUnit(u Unit) UnitResult {
 	case "x1":
 		scs := x1Scenarios(u.Prop, u.Tier)
 		sc := scs[u.Index]
-		return runX1Unit(u, sc, x1Bound(u.Prop, u.Tier))
+		b := x1Bound(u.Prop, u.Tier)
+		if sc.Bound != nil {
+			b = *sc.Bound
+		}
+		return runX1Unit(u, sc, b)
+	case "x1chunk":
+		scs := x1Scenarios(u.Prop, u.Tier)
+		total := UnitResult{Name: u.Name, Exhaustive: true, Unbounded: true, Bound: 1 << 30}
+		outcomes := 0
+		for i, sc := range scs {
+			if i%chunkCount != u.Index {
+				continue
+			}
+			b := x1Bound(u.Prop, u.Tier)
+			if sc.Bound != nil {
+				b = *sc.Bound
+			}
+			r := runX1Unit(u, sc, b)
+			total.Execs += r.Execs
+			total.States += r.States
+			total.Transitions += r.Transitions
+			total.Replays += r.Replays
+			outcomes += r.Outcomes
+			if r.MaxDepth > total.MaxDepth {
+				total.MaxDepth = r.MaxDepth
+			}
+			if r.Bound < total.Bound {
+				total.Bound = r.Bound
+			}
+			total.Exhaustive = total.Exhaustive && r.Exhaustive
+			total.Unbounded = total.Unbounded && r.Unbounded
+			total.Caps = append(total.Caps, r.Caps...)
+			if len(total.Samples) < 2 {
+				total.Samples = append(total.Samples, r.Samples...)
+			}
+			total.Viol = append(total.Viol, r.Viol...)
+		}
+		total.Outcomes = outcomes
+		return total
 	case "x2":
 		return runX2Unit(u, x2Configs(u.Prop, u.Tier)[u.Index])
 	}
@@ -65,6 +134,38 @@ func runX1Unit(u Unit, sc *Scenario, bound int) UnitResult {
 	res := UnitResult{Name: u.Name}
 	x := NewX1(sc, bound)
 	x.Deadline = time.Now().Add(unitDeadline(u.Tier))
+	if u.Prop == "C13" {
+		if !vsched.RaceBuild && os.Getenv("VERIF_C13_NORACE") == "" {
+			panic(InfraError{"C13 units must run in the race build of the engine"})
+		}
+		rl := newRaceLog()
+		if rl == nil && vsched.RaceBuild {
+			panic(InfraError{"GORACE log_path not set"})
+		}
+		// Tearing an execution down unwinds the parked goroutines with the shims switched off, so
+		// deferred production code runs without its locks: whatever the detector says about that
+		// is an artefact of the harness and is discarded.
+		x.AfterClose = func() { x.RaceTeardown += len(rl.poll()) }
+		x.AfterExec = func(ex *Exec) []Violation {
+			var vs []Violation
+			for _, rep := range rl.poll() {
+				x.RaceReports++
+				if strings.Contains(rep.Text, "runtime.Goexit()") {
+					x.RaceTeardown++
+					continue
+				}
+				if !rep.Prod {
+					x.RaceInternal++
+					continue
+				}
+				pair := []string{stripLine(rep.A), stripLine(rep.B)}
+				sort.Strings(pair)
+				vs = append(vs, Violation{Property: "C13", Rule: "data-race", Norm: "race:" + pair[0] + " <-> " + pair[1],
+					Msg: "the Go race detector reports a data race in this execution:\n" + rep.Text})
+			}
+			return vs
+		}
+	}
 	// determinism gate: the default execution twice, identical logs
 	e1 := x.Replay(nil)
 	l1 := logStrings(e1.W)
@@ -78,6 +179,13 @@ func runX1Unit(u Unit, sc *Scenario, bound int) UnitResult {
 		panic(InfraError{"determinism gate failed for " + sc.Name + ":\n" + strings.Join(l1, "\n") + "\n---\n" + strings.Join(l2, "\n")})
 	}
 	x.Steps = 0
+	if sc.Static != nil {
+		for _, v := range sc.Static() {
+			x.Viol = append(x.Viol, FoundViolation{Violation: v, Scenario: sc.Name})
+			res.Viol = append(res.Viol, FoundViolation{Violation: v, Scenario: sc.Name})
+		}
+		x.Viol = nil
+	}
 	x.Run()
 	res.Execs = x.Execs
 	res.States = x.States
@@ -94,6 +202,9 @@ func runX1Unit(u Unit, sc *Scenario, bound int) UnitResult {
 		}
 	}
 	res.Samples = x.Samples
+	if x.RaceReports > 0 || u.Prop == "C13" {
+		res.Extra = map[string]int{"race_reports_total": x.RaceReports, "race_reports_in_checker_code_ignored": x.RaceInternal, "race_reports_during_teardown_ignored": x.RaceTeardown}
+	}
 	// violations: replay each violating schedule (up to 3 distinct norms) 5 times and keep it only if it fails every time
 	seen := map[string]bool{}
 	for _, v := range x.Viol {
@@ -102,6 +213,15 @@ func runX1Unit(u Unit, sc *Scenario, bound int) UnitResult {
 			continue
 		}
 		seen[k] = true
+		if strings.HasPrefix(v.Norm, "race:") {
+			// the detector reports a racy pair once per process: it cannot be re-observed by a replay.
+			// The schedule is replayed once to make sure it is reproducible as such.
+			ex := x.Replay(v.Choices)
+			ex.W.Close()
+			res.Replays++
+			res.Viol = append(res.Viol, v)
+			continue
+		}
 		stable := true
 		for i := 0; i < 5; i++ {
 			ex := x.Replay(v.Choices)
@@ -204,7 +324,7 @@ func c04Scenarios(tier string) []*Scenario {
 			w.SpawnDriver(Op{Kind: "C", Job: 1, WaitAccepted: 1})
 			w.SpawnDriver(Op{Kind: "C", Job: 1, WaitAccepted: 1})
 		},
-		Check: chk, NoTick: true,
+		Check: chk, NoTick: true, Bound: heavyBound(tier),
 	})
 	scs = append(scs, &Scenario{
 		Name: "cancel-sequence/chain",
@@ -214,7 +334,7 @@ func c04Scenarios(tier string) []*Scenario {
 			w.SpawnDriver(Op{Kind: "S", Pipeline: "p"})
 			w.SpawnDriver(Op{Kind: "C", Job: 1, WaitAccepted: 1}, Op{Kind: "C", Job: 1}, Op{Kind: "C", Job: 99}, Op{Kind: "Read", Job: 1})
 		},
-		Check: chk, NoTick: true,
+		Check: chk, NoTick: true, Bound: heavyBound(tier),
 	})
 	scs = append(scs, &Scenario{
 		Name:   "cancel-waiting/nodelay",
@@ -261,6 +381,14 @@ func c04Scenarios(tier string) []*Scenario {
 		Check: chk, NoTick: true,
 	})
 	return scs
+}
+
+// heavyBound is the deviation bound for scenarios with three or more client threads
+func heavyBound(tier string) *int {
+	if tier == "thorough" {
+		return intp(2)
+	}
+	return intp(1)
 }
 
 func defsOf(cfgs ...PipeCfg) []*definitionPipelinesDef {
